@@ -26,6 +26,7 @@ EXTENDS Integers, Sequences, FiniteSets, TLC, Json
 
 CONSTANTS MaxTurns,
           Vary,            \* names of the input dimensions that vary (the others keep their default)
+          ForceOn,         \* names of boolean input dimensions fixed to TRUE
           FaultSites,      \* fail-soft sites that may raise
           MaxFaults,
           StashCleared     \* TRUE: the reflection stash of a reused context is cleared at turn start
@@ -33,7 +34,7 @@ CONSTANTS MaxTurns,
 VARIABLES pc, inp, log, ver, snaps, reflmem, stash, turnno, h
 vars == <<pc, inp, log, ver, snaps, reflmem, stash, turnno, h>>
 
-V(name, dflt, alts) == IF name \in Vary THEN {dflt} \cup alts ELSE {dflt}
+V(name, dflt, alts) == IF name \in ForceOn THEN {TRUE} ELSE IF name \in Vary THEN {dflt} \cup alts ELSE {dflt}
 
 Inputs ==
     {i \in [sched : V("sched", FALSE, {TRUE}),
